@@ -207,6 +207,7 @@ func oracleC03(p *plan.Plan, his []plan.Rec, res *plan.Result) {
 		vals     map[string]bool
 		ack      string
 		ever        map[string]bool // every value ever written to the key
+		inWindow    map[string]bool // values written between a membership event and the next stabilisation
 		overlapDel  bool // the last acknowledged Delete ran while two or more membership changes were pending
 		slowDelete  bool // the last acknowledged Delete was blocked for longer than the member-to-member read time-out
 		baseBackups int  // backup copies before the first membership event
@@ -297,8 +298,12 @@ func oracleC03(p *plan.Plan, his []plan.Rec, res *plan.Result) {
 			}
 			if st.ever == nil {
 				st.ever = map[string]bool{}
+				st.inWindow = map[string]bool{}
 			}
 			st.ever[v] = true
+			if lastEvent >= 0 {
+				st.inWindow[v] = true
+			}
 		case "ctl.copies":
 			if r.Phase == 1 {
 				st := get(r.Op.Key)
@@ -324,7 +329,7 @@ func oracleC03(p *plan.Plan, his []plan.Rec, res *plan.Result) {
 						// an older version came back after a Delete
 						class = "deleted-key-resurrected"
 					}
-					viol(res, class, r.Op.Key+slowTag(st.slowDelete)+overlapTag(st.overlapDel && class == "deleted-key-resurrected"), "%s but the key may only hold %v; writes: %s", descRecT(r), keysOf(st.vals), writesOf(his, r.Op.Key))
+					viol(res, class, r.Op.Key+slowTag(st.slowDelete)+overlapTag(st.overlapDel && class == "deleted-key-resurrected")+windowTag(class == "deleted-key-resurrected" && st.inWindow["="+r.Val]), "%s but the key may only hold %v; writes: %s", descRecT(r), keysOf(st.vals), writesOf(his, r.Op.Key))
 				}
 			case r.Err == plan.ENotFound:
 				if !st.vals[""] {
@@ -375,12 +380,14 @@ func oracleC03(p *plan.Plan, his []plan.Rec, res *plan.Result) {
 					} else if (st.ack == "" && len(keysOf(st.vals)) == 1) || (st.slowDelete && st.vals[""] && st.ever[v]) {
 						class = "deleted-key-resurrected"
 					}
-					viol(res, class, r.Op.Key+slowTag(st.slowDelete)+overlapTag(st.overlapDel && class == "deleted-key-resurrected"), "Get(%s) through m%d returned %q, allowed %v; writes: %s", r.Op.Key, c.Member, v, keysOf(st.vals), writesOf(his, r.Op.Key))
+					viol(res, class, r.Op.Key+slowTag(st.slowDelete)+overlapTag(st.overlapDel && class == "deleted-key-resurrected")+windowTag(class == "deleted-key-resurrected" && st.inWindow[v]), "Get(%s) through m%d returned %q, allowed %v; writes: %s", r.Op.Key, c.Member, v, keysOf(st.vals), writesOf(his, r.Op.Key))
 				}
 			}
 			if len(seen) > 1 {
 				viol(res, "members-disagree", r.Op.Key, "members return different values for %s: %v", r.Op.Key, keysOf(seen))
-			} else if seen[""] == false && len(seen) == 1 {
+			} else if seen[""] == false && len(seen) == 1 && st.vals[keysOf(seen)[0]] {
+				// (a key that reads a value it must not have has been reported above; its copies
+				// are not judged a second time)
 				live[r.Op.Key] = true
 			}
 		case "ctl.copies":
@@ -434,6 +441,15 @@ func oracleC03(p *plan.Plan, his []plan.Rec, res *plan.Result) {
 			}
 		}
 	}
+}
+
+// windowTag marks a resurrected value that was itself written while the routing tables were
+// changing (known finding "written-during-handover"); an older value coming back carries no tag.
+func windowTag(b bool) string {
+	if b {
+		return " written-during-handover"
+	}
+	return ""
 }
 
 func overlapTag(b bool) string {
